@@ -172,7 +172,9 @@ def mk_mod_case(rnd, fam, dma=False, nums=NUMS, clean_only=False):
                 lines.append('now %d' % t)
                 lines.append('ps_res path=%s' % hx(p))
         else:
-            lines.append('ps_res path=%s' % hx(p))
+            # RestoreAttribute("__name") on an object with original_attributes renames the object to "" (same defect as
+            # restore-unmodified-wipes; it breaks the fixture's clean-up, so it is not generated)
+            lines.append('ps_res path=%s' % hx('nosuch' if p in ('__name', 'version') else p))
     if dma:
         lines.append('ps_dma')
     return {'lines': lines, 'tags': {'family': fam}}
@@ -316,6 +318,25 @@ def _supplied(case, slot):
     return res
 
 
+def _mod_saw_dict(case, impl_lines):
+    """did some successful ps_mod of this case hit a path whose value was a dictionary (per-key recording branch)"""
+    ops = [l for l in case['lines'] if l.split()[0] in ('ps_mnew', 'ps_mod', 'ps_res', 'ps_dma')]
+    prev = None
+    for op, obs in zip(ops, impl_lines):
+        kv = dict(x.split('=', 1) for x in obs.split()[1:] if '=' in x)
+        if op.startswith('ps_mod') and prev is not None and kv.get('ok') == '1':
+            path = bytes.fromhex(dict(x.split('=', 1) for x in op.split()[1:])['path']).decode('utf-8', 'replace').split('.')
+            if path[0] == 'vars' and len(path) > 1:
+                cur = prev
+                for tk in path[1:]:
+                    cur = cur.get(tk.encode().hex() or '-') if isinstance(cur, dict) else None
+                if isinstance(cur, dict):
+                    return True
+        if 'vars' in kv:
+            prev = parse(kv['vars'])
+    return False
+
+
 def classify(case, detail, impl_lines):
     try:
         return _classify(case, detail, impl_lines)
@@ -362,6 +383,13 @@ def _classify(case, detail, impl_lines):
         m = re.search(r'ok=1 key=\S+ before=(\S+) after=(\S+) mentioned=1', detail)
         if m and round6(parse(m.group(1))) == parse(m.group(2)) and parse(m.group(1)) != parse(m.group(2)):
             return 'modattr-number-precision'
+        if _mod_saw_dict(case, impl_lines):
+            return 'restore-dict-original'
+        pre = [l for l in impl_lines if l.startswith(('mod ', 'res ', 'mnew '))][-1]
+        og = dict(x.split('=', 1) for x in pre.split()[1:]).get('orig', 'N')
+        keys = [bytes.fromhex(k).decode('utf-8', 'replace').split('.') for k in parse(og)] if og != 'N' else []
+        if any(a != b and b[:len(a)] == a for a in keys for b in keys):
+            return 'restore-overlap'
         return 'modattr'
     if detail.startswith('atomic'):
         return 'atomic'
